@@ -763,6 +763,17 @@ func scenarioStack() func(r *vrt.DirectReport, tier string) {
 			evals := 0
 			forEach(L, envAx, func(ec *combo) {
 				w := newWorld(ec)
+				// the environment's flattened view of the configuration store (handed to every template stage, read
+				// back by START_ACTIVITY and by integration plugins): vars over defaults, an empty value is a definition
+				wantDef, want := false, ""
+				if ec.at(0, kV) != stA {
+					wantDef, want = true, ec.value0(kV)
+				} else if ec.at(0, kD) != stA {
+					wantDef, want = true, ec.value0(kD)
+				}
+				if got, ok := w.base[key]; ok != wantDef || got != want {
+					b.fail("BaseConfigStack:store-vars-over-defaults", "configuration store %s: the environment's base config stack has %q (defined=%v), want %q (defined=%v)", ec, got, ok, want, wantDef)
+				}
 				root, err := workflow.LoadFromYAMLForVerifC14(ts.doc(newCombo(L), nil, nil), w.parent)
 				if err != nil {
 					panic(err)
